@@ -226,15 +226,15 @@ def main(tier):
             run.cov['traces_validated_against_impl'] += len(metas)
             if k == 0 and metas:
                 run.sample({'list_txt': info[metas[0][0]][1]['txt'].get('out', '')[:600]})
-            text = ['From Coq Require Import List ZArith String.', 'From NP Require Import IntervalSet ConnSet World Build Connlist Diff Format DiffDot XFormat XFormatMore XDot RowInj DiffInj.',
+            text = ['From Coq Require Import List ZArith String.', 'From NP Require Import IntervalSet ConnSet World Build Connlist Diff Format DiffDot XFormat XFormatMore XDot RowInj DiffInj DiffCsvInj DotInj.',
                     'Import ListNotations.', 'Open Scope Z_scope.', 'Definition lcases : list fmt_case := [', ';\n'.join(lcases), '].',
                     'Definition dcases : list dfmt_case := [', ';\n'.join(dcases), '].',
                     'Definition xcases : list xfmt_case := [', ';\n'.join(xcases), '].', 'Definition XM := Eval vm_compute in xfmt_mismatches xcases.',
                     'Definition ddcases : list ddot_case := [', ';\n'.join(ddcases), '].', 'Definition DDM := Eval vm_compute in ddot_mismatches ddcases.',
                     'Definition xdcases : list xdot_case := [', ';\n'.join(xdcases), '].', 'Definition XDM := Eval vm_compute in xdot_mismatches xdcases.',
                     'Definition x3cases : list xfmt3_case := [', ';\n'.join(x3cases), '].', 'Definition X3M := Eval vm_compute in xfmt3_mismatches x3cases.',
-                    'Definition tcases : list dot_case := [', ';\n'.join(tcases), '].', 'Definition TM := Eval vm_compute in dot_mismatches tcases.',
-                    'Definition MM := Eval vm_compute in fmt_mismatches lcases.', 'Definition DM := Eval vm_compute in dfmt_mismatches dcases.', 'Definition PM := Eval vm_compute in printable_mismatches lcases.', 'Definition DPM := Eval vm_compute in dprintable_mismatches dcases.', 'Print MM.', 'Print DM.', 'Print PM.', 'Print TM.', 'Print XM.', 'Print X3M.', 'Print DDM.', 'Print DPM.', 'Print XDM.']
+                    'Definition tcases : list dot_case := [', ';\n'.join(tcases), '].', 'Definition TM := Eval vm_compute in (dot_mismatches tcases ++ dot_printable_mismatches tcases)%list.',
+                    'Definition MM := Eval vm_compute in fmt_mismatches lcases.', 'Definition DM := Eval vm_compute in dfmt_mismatches dcases.', 'Definition PM := Eval vm_compute in printable_mismatches lcases.', 'Definition DPM := Eval vm_compute in dcsv_printable_mismatches dcases.', 'Print MM.', 'Print DM.', 'Print PM.', 'Print TM.', 'Print XM.', 'Print X3M.', 'Print DDM.', 'Print DPM.', 'Print XDM.']
             rc, out, err = core.run_coq_text('\n'.join(text))
             if rc != 0:
                 raise RuntimeError('coqc on format cases failed: ' + err[-1500:])
@@ -292,6 +292,10 @@ def main(tier):
                 raise RuntimeError('no TM in coqc output')
             for cid, code in tm[:4]:
                 payload, lo, do = info[cid]
+                if code in (7, 8):
+                    run.report(None, 'dotunprintable-%d' % cid, dict(payload, format='dot', output=lo['dot']['out']),
+                               'an entry or a peer of the report is outside the domain on which the dot rendering is proved injective (a quote, blank or line break in a peer string, a line break in a label or namespace)')
+                    continue
                 run.report(None, 'bytes-dot-%d' % cid, dict(payload, format='dot', output=lo['dot']['out']),
                            'list dot output differs byte-wise from the format model applied to the API result')
             pm = core.parse_pairs(out, 'PM')
